@@ -38,7 +38,7 @@ ASSUMPTIONS = [
 ]
 BOUNDS = {
     "quick": "20-event alphabet + rollback to every boundary, all histories to depth 5, partitioned by 2-event root prefixes",
-    "thorough": "same alphabet, all histories to depth 7, partitioned by 3-event root prefixes",
+    "thorough": "same alphabet, all histories to depth 6 (depth 7 measured at ~46M transitions, outside the budget), partitioned by 2-event root prefixes",
 }
 
 # ------------------------------------------------------------------ universe
@@ -320,7 +320,7 @@ def ev_class(w, hist, bad):
 
 
 def _depth(tier):
-    return 5 if tier == "quick" else 7
+    return 5 if tier == "quick" else 6
 
 
 def _alpha_with_bt(n):
@@ -330,15 +330,9 @@ def _alpha_with_bt(n):
 def tasks(tier):
     out = [("pre", tier, [])]
     a1 = EVENTS
-    if tier == "quick":
-        for i in range(len(a1)):
-            for e2 in range(len(_alpha_with_bt(1))):
-                out.append(("sub", tier, [i, e2]))
-    else:
-        for i in range(len(a1)):
-            for e2 in range(len(_alpha_with_bt(1))):
-                for e3 in range(len(_alpha_with_bt(2))):
-                    out.append(("sub", tier, [i, e2, e3]))
+    for i in range(len(a1)):
+        for e2 in range(len(_alpha_with_bt(1))):
+            out.append(("sub", tier, [i, e2]))
     return out
 
 
@@ -365,7 +359,7 @@ def work(task):
     counters = {"states": 0, "transitions": 0, "max_depth": 0}
     if kind == "pre":
         root = ()
-        depth = 1 if tier == "quick" else 2
+        depth = 1
     else:
         root = tuple(_root(idx))
         depth = _depth(tier)
@@ -400,7 +394,7 @@ def work(task):
 def replay(case):
     hist = tuple(case["hist"])
     w = build(hist)
-    return [f["detail"] for f in check_state(w, hist)]
+    return [f"after {json.dumps([list(e) for e in hist])}: {f['detail']}" for f in check_state(w, hist)]
 
 
 CLASSIFIERS = {}
